@@ -173,7 +173,7 @@ CHECKS = {
     },
     "C12": {
         "level": "exploration",
-        "parts": [{"gen": "C12", "quick": 2400, "thorough": 48000}, {"gen": "C12wrap", "quick": 480, "thorough": 4800}],
+        "parts": [{"gen": "C12", "quick": 2400, "thorough": 48000}, {"gen": "C12wrap", "quick": 480, "thorough": 4800}, {"gen": "C12roam", "quick": 120, "thorough": 1200}],
         "rule": "wire sniffing inside the simulator: one run = the real client and server relaying 2-6 (thorough -12) TCP sessions with 1-12 writes each way per session, or (every third seed) a Shadowsocks datagram run with several applications and bursts of datagrams; "
                 "everything the two real encoders emit on the plain link is captured (transparent link node / datagram capture) and parsed by the strict reference decoders, which know the credentials and return, per sealed unit, the derived key and nonce it opened with. "
                 "Oracle: no (key, nonce) pair occurs twice; request and response salts, datagram salts, 2022 session ids, VMess body key+IV, auth-id time+random parts and connection nonces are pairwise distinct across the sessions of a run; packet ids strictly increase within a datagram session, per direction. "
@@ -182,7 +182,8 @@ CHECKS = {
             "with seeded entropy this detects missing, reused or non-advancing draws and counters; the unpredictability of the OS RNG is outside the simulator",
             "VMess defines the authenticated-length cipher of both directions as KDF(request key, 'auth_len') with the request IV and a counter from 0; that protocol-defined overlap is compared per direction only",
             "the VMess 16-bit chunk counter wrap is the protocol's own counter width (exempt)",
-            "generator C12wrap ('a UDP session ends rather than reuse a packet id'): with hook H8 the first datagram session of the client, of the server, or of both starts 1-7 ids before 2^64; 14 datagrams with echoes cross the end of the id space; on the wire the ids of every session must keep increasing (a wrap to 0 is the reuse), and the exchange must go on in a new session (at most a few datagrams fall at the seam)"],
+            "generator C12wrap ('a UDP session ends rather than reuse a packet id'): with hook H8 the first datagram session of the client, of the server, or of both starts 1-7 ids before 2^64; 14 datagrams with echoes cross the end of the id space; on the wire the ids of every session must keep increasing (a wrap to 0 is the reuse), and the exchange must go on in a new session (at most a few datagrams fall at the seam)",
+            "generator C12roam: the in-path datagram attacker of C05 / C02 (mutated versions before the genuine datagram, replays from another address); every datagram the server puts on the link is opened by the reference: within one server session the packet ids keep increasing whatever the attacker's datagrams made the server do (an association rebuilt for another address must not start its ids again under the same session id)"],
     },
     "C06": {
         "level": "exploration",
